@@ -89,7 +89,7 @@ fn mk(name: &str, chans_a: Vec<ChanSpec>, chans_b: Vec<ChanSpec>, plan: &[(usize
     let msgs = plan.iter().map(|(side, chan, len, task)| { let i = idx.entry((*side, *chan)).or_insert(0usize); let d = payload(*side, *chan, *i, *len); *i += 1;
         Msg { side: *side, chan: *chan, data: d, phase: 0, task: *task } }).collect();
     C12Case { name: name.into(), case: Case { cfg, chans: [chans_a, chans_b], msgs, faults: faults_parse(faults), deadline: Duration::from_secs(10),
-        settle: Duration::from_millis(80), closes }, multi_thread: mt }
+        settle: Duration::from_millis(80), closes, end: End::None }, multi_thread: mt }
 }
 
 fn cases(args: &Args, rng: &mut Rng) -> Vec<C12Case> {
@@ -122,6 +122,24 @@ fn cases(args: &Args, rng: &mut Rng) -> Vec<C12Case> {
         &[(0, 2, 20_000, 0), (0, 2, 30, 0), (0, 2, 40, 0)], "A.DATA.2.drop", (Some(5000), Some(1000)), vec![], false));
     v.push(mk("pr-with-reliable-sibling", vec![spec(2, Kind::RexUnord, true, 0), spec(1, Kind::RelOrd, true, 0)], vec![spec(2, Kind::RexUnord, true, 0), spec(1, Kind::RelOrd, true, 0)],
         &[(0, 2, 3000, 0), (0, 1, 50, 0), (0, 1, 60, 0)], "A.DATA.1.drop", (Some(1000), Some(5000)), vec![], false));
+    // Close: the application closes a channel twice; closes then tears the association down; teardown by local close,
+    // ABORT, SHUTDOWN-ACK, SHUTDOWN-COMPLETE; SHUTDOWN alone (answered, association stays)
+    for (name, closes, end) in [
+        ("close-twice", vec![(0usize, 1u16), (0, 1)], End::None),
+        ("close-both-sides", vec![(0, 1), (1, 1), (1, 2)], End::None),
+        ("close-then-local-teardown", vec![(0, 1)], End::LocalClose(0)),
+        ("close-then-abort", vec![(1, 2)], End::Inject(1, 6)),
+        ("teardown-local", vec![], End::LocalClose(1)),
+        ("teardown-abort", vec![], End::Inject(0, 6)),
+        ("teardown-shutdown-ack", vec![], End::Inject(1, 8)),
+        ("teardown-shutdown-complete", vec![], End::Inject(0, 14)),
+        ("shutdown-answered", vec![], End::Inject(1, 7)),
+    ] {
+        let mut c = mk(name, vec![spec(1, Kind::RelOrd, true, 0), spec(2, Kind::RelUnord, false, 0)], vec![spec(1, Kind::RelOrd, true, 0)],
+            &[(0, 1, 50, 0), (0, 2, 1500, 0), (1, 1, 9, 0), (1, 2, 10, 0)], "-", (None, None), closes, false);
+        c.case.end = end;
+        v.push(c);
+    }
     // in-band channels whose DCEP OPEN does not fit one DATA chunk (label + protocol >= 1161 bytes), next to a negotiated sibling
     for (i, (ll, pl)) in [(1200usize, 0usize), (1150, 0), (600, 600), (3000, 10), (20_000, 2000)].iter().enumerate() {
         let mut c = mk(&format!("dcep-long-label{i}"), vec![spec(2, Kind::RelOrd, false, 0), spec(1, Kind::RelOrd, true, 0), spec(4, Kind::RelUnord, false, 0)], vec![spec(1, Kind::RelOrd, true, 0)],
@@ -223,8 +241,10 @@ fn oracle(c: &Case, o: &Outcome) -> Vec<(String, String)> {
                 }
             }
             if !pr && delivered.len() < submitted.len() && !fails.iter().any(|f| f.0.starts_with("delivered:")) {
-                let closed = o.snaps.iter().any(|s| s.state == SctpState::Closed || s.close_reason.is_some());
-                if !closed && o.send_errors.is_empty() {
+                // excused only by a close the case itself asked for, or by a channel DCEP cannot carry
+                let uncarriable = ch.label.len() > 65_535 || ch.protocol.len() > 65_535;
+                let excused = (0..2).any(|s| c.end.closes_side(s)) || c.closes.iter().any(|(_, id)| *id == ch.id) || uncarriable;
+                if !excused {
                     fails.push((if any_pr { "stall:reliable-channel-behind-abandoned-chunk".to_string() } else { "stall".to_string() },
                         format!("{who}: {} of {} delivered after {} ms", delivered.len(), submitted.len(), o.elapsed_ms)));
                 }
